@@ -51,7 +51,7 @@ ROUTE = {
     "d4parse": "dhcp", "sub82p": "dhcp",
     "d4msg": "dhcp4",
     "sub82": "ipoe",
-    "sesspap": "sess", "sesschap": "sess", "fzsess": "sess", "bkdhcp6": "sess", "bkrakick": "sess",
+    "sesspap": "sess", "sesschap": "sess", "fzsess": "sess", "bkdhcp6": "sess", "bkrakick": "sess", "bkevd6": "sess", "bkevra": "sess", "bkevl2": "ipoe",
     "bkl2gw": "ipoe",
     "attr80": "radius", "fzrad": "radius", "radreply": "radius", "radreqauth": "radius", "radma": "radius", "coaattrs": "radius",
     "ipoeopts": "ipoe", "l2ppp": "il2tp",
@@ -821,6 +821,15 @@ def gen_cases(rng, tier, budget):
         for k in ((1, 16) if q else (0, 1, 2, 16, 39)):
             add(case("bkrakick", [n, k]))
             add(case("bkl2gw", [n, k]))
+    # arbitrary arrive (A) / finish (F) histories; the harness reads len(chan) of the real semaphore / queue after every step
+    for _ in range(14 if q else 300):
+        n = rng.choice([5, 20, 40, 60])
+        pa = rng.choice([0.5, 0.7, 0.9, 1.0])
+        ev = bytes(0x41 if rng.random() < pa else 0x46 for _ in range(n))
+        add(case("bkevd6", [rng.choice([16, 16, 16, 3, 1])], ev))
+        add(case("bkevra", [rng.choice([16, 2, 0, 5])], ev))
+        add(case("bkevl2", [rng.choice([16, 2, 0, 5])], ev))
+    add(case("bkevd6", [16], b"A" * 20 + b"F" * 20 + b"A" * 3))
     # --- gopacket decode through the shm ingress (supporting validation only) --------------------------------
     frames = eth_frames(rng) + eth_frames(rng)
     pool = [f for _, f in frames]
@@ -871,6 +880,10 @@ def classify(case_line, impl, model):
     if e.startswith("bk") and impl.startswith("ok ") and model.startswith("ok ") and impl != model:
         it, mt = impl.split(), model.split()
         n = case_line.split()[1].split(",")[0]
+        if e.startswith("bkev"):
+            k = next((i for i, (a, b) in enumerate(zip(it, mt)) if a != b), min(len(it), len(mt)))
+            return "P", ("%s: at step %d of the arrive/finish history the real queue (occupancy, outcome) is %r, the pool model says %r"
+                         " (3 = handler call did not return)" % (e, (k - 1) // 2 + 1, " ".join(it[k - (k + 1) % 2:][:2]), " ".join(mt[k - (k + 1) % 2:][:2])))
         if it[1] != mt[1]:
             return "P", ("%s: receive handler call #%d of a burst of %s well-formed frames did not return within 1.5 s while the "
                          "workers were held (handler wedged; session still answers afterwards: %s, pool drained after release: %s)"
@@ -911,6 +924,11 @@ def signature(case_line, impl, models):
 
 def shrink(case_line):
     t = case_line.split()
+    if t[0].startswith("bkev"):
+        b = _payload(case_line)
+        for i in range(len(b) - 1, -1, -1):
+            yield " ".join(t[:2] + [hx(b[:i] + b[i + 1:])])
+        return
     if t[0].startswith("bk"):
         a = [int(x) for x in t[1].split(",")]
         for n in sorted(set([a[0] // 2, a[0] - 1, 17, 16]) - {a[0]}):
